@@ -861,7 +861,7 @@ class Exec:
             return self.eval_const(f)
         # promoted reference
         # unit enum variant `path::Enum::Variant`
-        segs = split_top(c, "::")
+        segs = [x for x in split_top(c, "::") if not x.startswith("<")]
         if len(segs) >= 2:
             vname = segs[-1]
             ename = re.sub(r"<.*>", "", segs[-2])
